@@ -357,11 +357,14 @@ impl World {
         }
         self.emit(Ev::WakeFired { node, wid, most_recent, ctx, by_ref });
         // group slot reuse: a waker of an earlier holder of the same key re-arms the current holder
-        if let (Some(key), true) = (key, parent != world::NO_NODE) {
+        // (members that entered through Extend have a key the harness does not know: be conservative)
+        let in_group = parent != world::NO_NODE
+            && matches!(self.nodes[parent as usize].fam, world::Family::FutGroup | world::Family::StreamGroup);
+        if in_group {
             let sibs = self.nodes[parent as usize].children.clone();
             for s in sibs {
                 let m = &mut self.nodes[s as usize];
-                if s != node && m.key == Some(key) {
+                if s != node && (key.is_none() || m.key.is_none() || m.key == key) {
                     m.fired_any = true;
                 }
             }
@@ -445,6 +448,12 @@ pub struct LeafAct {
     panic: bool,
 }
 
+impl LeafAct {
+    pub fn step(&self) -> Option<Step> {
+        self.step
+    }
+}
+
 impl World {
     fn leaf_poll(&mut self, id: NodeId, waker: &Waker) -> LeafAct {
         self.poll_begin(id, waker);
@@ -495,7 +504,7 @@ impl World {
     }
 }
 
-fn leaf_poll_common(id: NodeId, cx: &mut Context<'_>) -> LeafAct {
+pub fn leaf_poll_common(id: NodeId, cx: &mut Context<'_>) -> LeafAct {
     let act = with(|w| w.leaf_poll(id, cx.waker()));
     if act.panic {
         std::panic::panic_any(InjectedPanic);
@@ -672,7 +681,16 @@ impl<const N: usize> Compose for [Val; N] {
         (v, Res::Ready, Some(id))
     }
 }
-compose_plain!(Vec<Val>, (Val,), (Val, Val), (Val, Val, Val), (Val, Val, Val, Val));
+compose_plain!((Val,), (Val, Val), (Val, Val, Val), (Val, Val, Val, Val));
+impl Compose for Vec<Val> {
+    type Out = Val;
+    fn compose(mut self, node: NodeId) -> (Val, Res, Option<u32>) {
+        // drain instead of forgetting the Vec (which would leak its buffer)
+        let ids: Vec<u32> = self.drain(..).map(|v| v.forget().0).collect();
+        let id = with(|w| w.val_compose(node, ids));
+        (Val::from_id(id), Res::Ready, Some(id))
+    }
+}
 impl<T: Compose<Out = Val>> Compose for Result<T, Val> {
     type Out = Result<Val, Val>;
     fn compose(self, node: NodeId) -> (Result<Val, Val>, Res, Option<u32>) {
